@@ -358,9 +358,18 @@ func runOci(mode string, seed int64, tier string, sc *Script) map[string]any {
 				}
 			case r < 52:
 				ref := randRef()
+				before := c.runQuery(c.store, []string{"resolve", "ref=" + ref})
 				err := c.store.Untag(ctx, c.refString(ref))
 				sc.Op(ociErr(err), "o untag ref=%s", ref)
 				sc.Count("op:untag")
+				if err != nil {
+					// a refused operation changes nothing: the reference resolves as before
+					v := "same"
+					if after := c.runQuery(c.store, []string{"resolve", "ref=" + ref}); after != before {
+						v = "changed(" + strings.ReplaceAll(before+"->"+after, " ", "_") + ")"
+					}
+					sc.Op(v, "o refusednoop op=untag ref=%s", ref)
+				}
 			case r < 62:
 				ref := randRef()
 				sc.Op(c.runQuery(c.store, []string{"resolve", "ref=" + ref}), "o resolve ref=%s", ref)
